@@ -260,9 +260,15 @@ class NumpyProxy:
         return LLog(rows, cols, is1d, kind)
 
     def empty(self, shape, dtype=None, **kw):
-        return self._mk(shape, K_UNINIT)
+        out = self._mk(shape, K_UNINIT)
+        if isinstance(dtype, DType):
+            out.dtype = dtype  # which input's dtype the buffer was given (C20: tables take the series' dtype)
+        return out
 
     def full(self, shape, fill_value, dtype=None, **kw):
         if isinstance(fill_value, float) and fill_value != fill_value:
-            return self._mk(shape, K_NAN)
+            out = self._mk(shape, K_NAN)
+            if isinstance(dtype, DType):
+                out.dtype = dtype
+            return out
         raise sx.SXError("SXL: numpy.full with a non-NaN fill is not modelled")
